@@ -843,3 +843,22 @@ Proof.
   pose proof (delete_lines_then_P_restores ins t i a b kc _ Hab He Hc Hls) as H.
   destruct (apply_op OpDelete ins (mkO t i None) (RLines a b kc)) as [t1 c1 r1]. exact H.
 Qed.
+
+(** ** yy then p: the cursor's line stands a second time below itself, nothing else changes *)
+Theorem yank_line_then_p_duplicates ins (t : text) i :
+  (i <= length t)%nat ->
+  let lo := line_start_from t i in let e := line_end t i in
+  o_text (put true 1 (apply_op OpYank ins (mkO t i None) (RLines i i true)))
+  = firstn e t ++ [nl] ++ slice t lo e ++ skipn e t.
+Proof.
+  intros Hi. cbv zeta. cbn [apply_op o_text o_cur o_reg].
+  replace (Nat.min i (length t)) with i by lia. rewrite Nat.min_id.
+  unfold put. cbn [o_text o_cur o_reg]. replace (Nat.min i (length t)) with i by lia.
+  cbn [repeat_text Nat.max]. rewrite app_nil_r.
+  pose proof (line_start_le t i) as Hlo. pose proof (line_end_bounds t i Hi) as He.
+  assert (Hlen : length (slice t (line_start_from t i) (line_end t i) ++ [nl]) = S (line_end t i - line_start_from t i))
+    by (rewrite app_length, slice_length by lia; cbn; lia).
+  rewrite Hlen. replace (S (line_end t i - line_start_from t i) - 1)%nat with (line_end t i - line_start_from t i)%nat by lia.
+  rewrite (firstn_exact_left (slice t (line_start_from t i) (line_end t i)) [nl]) by (symmetry; apply slice_length; lia).
+  reflexivity.
+Qed.
